@@ -251,7 +251,7 @@ Proof. exact slice_law_values. Qed.
    lazy iterables (sized or not), maps (their keys), strings, bytes, none, undefined *)
 Theorem reverse_involutive : forall v r, ~ KnownRev v -> f_reverse v = Ok r ->
   match rev_items v with
-  | Some xs => r = VIter LzUnsized (rev xs) /\ f_reverse r = Ok (VIter LzUnsized xs)
+  | Some xs => r = VIter LzSized (rev xs) /\ f_reverse r = Ok (VIter LzSized xs)
   | None => f_reverse r = Ok v
   end.
 Proof. exact reverse_involutive_values. Qed.
@@ -259,7 +259,7 @@ Proof. exact reverse_involutive_values. Qed.
 (* known finding (pinned by tests/test_value.rs::test_reverse): objects enumerated by
    Enumerator::RevIter come out in forward order *)
 Example reverse_reviter_refuted :
-  f_reverse (VIter LzRev [VInt W_I64 1; VInt W_I64 2]) = Ok (VIter LzUnsized [VInt W_I64 1; VInt W_I64 2]) /\
+  f_reverse (VIter LzRev [VInt W_I64 1; VInt W_I64 2]) = Ok (VIter LzSized [VInt W_I64 1; VInt W_I64 2]) /\
   f_last (VIter LzRev [VInt W_I64 1; VInt W_I64 2]) = Ok (VInt W_I64 1) /\
   KnownRev (VIter LzRev [VInt W_I64 1; VInt W_I64 2]).
 Proof. vm_compute. repeat split. Qed.
@@ -285,7 +285,7 @@ Proof. exact dictsort_law_values. Qed.
 (* items: the (key, value) pairs in iteration order -- what dictsort sorts *)
 Theorem items_pairs : forall v,
   match v with
-  | VMap kvs => f_items v = Ok (VIter LzUnsized (map pair_value kvs))
+  | VMap kvs => f_items v = Ok (VIter LzSized (map pair_value kvs))
   | _ => f_items v = Err E_InvalidOperation
   end.
 Proof. exact items_values. Qed.
